@@ -498,7 +498,10 @@ fn run_clkread(sc: &Value, tr: &mut Tracer) {
 			Ok(t) => {
 				e["ticks"] = json!(t.ticks.min(1 << 20));
 				e["below1"] = json!(t.fraction >= 0.0 && t.fraction < 1.0);
-				e["exact"] = json!(t.ticks == 0 && t.fraction == per_buffer);
+				// after two callbacks the handle shows the time after one buffer (published at the start of a callback) or after
+				// two (published at the end as well): either is a time the clock had
+				let two = per_buffer + per_buffer;
+				e["exact"] = json!((t.ticks == 0 && t.fraction == per_buffer) || (t.ticks as f64 + t.fraction == two && t.ticks == two.floor() as u64));
 			}
 			Err(_) => e["p"] = json!(true),
 		}
